@@ -1,6 +1,41 @@
 // Extension commands for area "validate" (owned by the builder of that area).
 // Return None when the command is not one of this module's.
-#[allow(unused_variables)]
+//
+// VDYNP <same arguments as VDYN>   validate_packet_outbound_internal under catch_unwind:
+//                                  reply `ok` | `err:<Kind>` | `panic`
+// VINP  <same arguments as VIN>    validate_packet_inbound_internal under catch_unwind
+// FILTERX x<filter>                is_valid_topic_filter_internal under the 12 combinations of
+//                                  wildcard (0,1) x shared (0,1) x no_local (-,0,1), in that nesting
+//                                  order (wildcard outermost): reply = 12 characters 0/1
+use gneiss_mqtt::verif::{misc, text};
+
+fn guarded<F: FnOnce() -> Result<String, String>>(f: F) -> Result<String, String> {
+    match std::panic::catch_unwind(std::panic::AssertUnwindSafe(f)) {
+        Ok(r) => r,
+        Err(_) => Ok("panic".to_string()),
+    }
+}
+
 pub fn handle(toks: &[&str]) -> Option<Result<String, String>> {
-    None
+    match toks[0] {
+        "VDYNP" => Some(guarded(|| misc::validate_dynamic(&toks[1..]))),
+        "VINP" => Some(guarded(|| misc::validate_inbound(&toks[1..]))),
+        "FILTERX" => {
+            if toks.len() < 2 { return Some(Err("FILTERX: short".to_string())); }
+            let filter = match text::unhex(toks[1]) { Ok(f) => f, Err(e) => return Some(Err(e)) };
+            let mut out = String::with_capacity(12);
+            for wildcard in [false, true] {
+                for shared in [false, true] {
+                    for no_local in [None, Some(false), Some(true)] {
+                        match misc::filter_valid(&filter, wildcard, shared, no_local) {
+                            Ok(v) => out.push_str(&v),
+                            Err(e) => return Some(Err(e)),
+                        }
+                    }
+                }
+            }
+            Some(Ok(out))
+        }
+        _ => None,
+    }
 }
